@@ -226,11 +226,16 @@ pub fn generate_convert(name: &str, count: usize, rng: &mut Rng, out: &mut dyn W
                         for k in 0..(rng.below(108) as usize) { d[k] = b[(k + 7) % 40] ^ 0x5a; }
                         json!({"op": "UnixNew", "args": {"src": rl(&s), "dst": rl(&d)}})
                     }
-                    9 => json!({"op": "TlvNew", "args": {"t": b[0], "v": rl(&b[1..(1 + (b[1] % 30) as usize)])}}),
+                    9 => if i % 22 == 9 {
+                        json!({"op": "V1HeaderNew", "args": {"text": flat(b"PROXY UNKNOWN\r\n"), "a": {"proto": "TCP4", "sa": flat(&b[0..4]), "da": flat(&b[4..8]), "sp": sp, "dp": dp}}})
+                    } else {
+                        json!({"op": "TlvNew", "args": {"t": b[0], "v": rl(&b[1..(1 + (b[1] % 30) as usize)])}})
+                    },
                     _ => {
                         let mk = |fam6: bool, off: usize, port: u16, rng: &mut Rng| -> Value {
                             if fam6 {
-                                json!({"fam": 6, "ip": flat(&b[off..off + 16]), "port": port, "flow": rng.next() as u32 & 0x7fffffff, "scope": rng.next() as u32 & 0x7fffffff})
+                                let (flow, scope) = match rng.below(4) { 0 => (0, 0), 1 => (0, rng.next() as u32 & 0x7fffffff), 2 => (rng.next() as u32 & 0xfffff, 0), _ => (rng.next() as u32 & 0x7fffffff, rng.next() as u32 & 0x7fffffff) };
+                                json!({"fam": 6, "ip": flat(&b[off..off + 16]), "port": port, "flow": flow, "scope": scope})
                             } else {
                                 json!({"fam": 4, "ip": flat(&b[off..off + 4]), "port": port, "flow": 0, "scope": 0})
                             }
